@@ -37,7 +37,8 @@ _OUT = os.fdopen(os.dup(1), "w")
 os.dup2(2, 1)
 os.environ["RUST_BACKTRACE"] = "0"
 
-sys.path.insert(0, "/verif/target/pyext")
+# VERIF_C20_PYEXT: another build of the extension (used to validate the oracle against a scratch copy)
+sys.path.insert(0, os.environ.get("VERIF_C20_PYEXT", "/verif/target/pyext"))
 import numpy as np  # noqa: E402
 import pybigtools  # noqa: E402
 
@@ -829,6 +830,7 @@ def main():
     ap.add_argument("--only", type=int, default=None)
     ap.add_argument("--from", dest="from_", type=int, default=0)
     a = ap.parse_args()
+    created = not os.path.isdir(a.scratch)
     os.makedirs(a.scratch, exist_ok=True)
     si, sn = [int(x) for x in a.shard.split("/")]
     if a.only is not None:
@@ -847,6 +849,11 @@ def main():
             time.sleep(100000)
         emit(run_case(a.seed, k, a.scratch))
     emit({"ev": "done"})
+    if created:
+        try:
+            os.rmdir(a.scratch)  # only if empty: every case removes its own files
+        except OSError:
+            pass
 
 
 if __name__ == "__main__":
